@@ -390,8 +390,18 @@ func run(c limCase, r *pb.Rec) error {
 		// the timed form on an idle Limiter returns at once and leaves nothing behind; the untimed Wait of the
 		// next phase must still block (only done while idle: a timed Wait that expires leaves a goroutine inside
 		// WaitGroup.Wait, and submitting again then is a documented WaitGroup misuse in the library as it is)
-		l.Wait(2 * time.Second)
-		l.Wait(time.Millisecond)
+		l.Wait(5 * time.Second)
+		// make sure the helper goroutine of the timed Wait is gone before anything is submitted again
+		for deadline := time.Now().Add(20 * time.Second); ; {
+			buf := make([]byte, 1<<18)
+			if !strings.Contains(string(buf[:runtime.Stack(buf, true)]), "goz.(*Limiter).Wait.func") {
+				break
+			}
+			if time.Now().After(deadline) {
+				return inconclusive{"the helper goroutine of a timed Wait on an idle Limiter did not finish within 20s"}
+			}
+			runtime.Gosched()
+		}
 		r.Class("timed Wait on the idle Limiter")
 	}
 	// phase 3: after the panics, n more gate-blocked functions must all get inside at the same time
